@@ -96,6 +96,12 @@ def _collect_ops(st, local, feats):
             v = n.value
             if isinstance(v, ast.Call) and isinstance(v.func, ast.Subscript) and dotted(v.func.value) == "mod_size2uint" and v.args:
                 v = v.args[0]
+            if isinstance(v, ast.Call) and callee_attr(v) == "pow" and len(v.args) == 3:
+                # modular exponentiation: pow(base, exponent, 2^width) == (base ** exponent) mod 2^width
+                a, b = _view(v.args[0], local), _view(v.args[1], local)
+                if a and b and a[1] == "1" and b[1] == "2" and norm(v.args[2]).replace(" ", "") in ("1<<int1.size",):
+                    feats["ops"].append(("**", a[0], b[0]))
+                    continue
             if isinstance(v, ast.BinOp):
                 a, b = _view(v.left, local), _view(v.right, local)
                 if a and b and a[1] == "1" and b[1] == "2":
